@@ -183,30 +183,22 @@ func vCaseCollision(params map[string]spec.Parameter) bool {
 	return false
 }
 
-// two paths of the spec whose derived operation keys coincide for the same method (known finding G1)
+// known finding G1 (see vKeyCollision) on a built spec
 func vPathKeyCollision(sw *spec.Swagger) bool {
-	seen := map[string]bool{}
+	var ins []vOpIn
 	for _, p := range vOpPaths {
 		pi, ok := sw.Paths.Paths[p]
 		if !ok {
 			continue
 		}
-		if pi.Get != nil && pi.Get.ID == "" {
-			k := "GET " + vOpKey("GET", p)
-			if seen[k] {
-				return true
-			}
-			seen[k] = true
+		if pi.Get != nil {
+			ins = append(ins, vOpIn{"GET", p, pi.Get.ID})
 		}
-		if pi.Post != nil && pi.Post.ID == "" {
-			k := "POST " + vOpKey("POST", p)
-			if seen[k] {
-				return true
-			}
-			seen[k] = true
+		if pi.Post != nil {
+			ins = append(ins, vOpIn{"POST", p, pi.Post.ID})
 		}
 	}
-	return false
+	return vKeyCollision(ins)
 }
 
 func init() { vRegister("VerifC07Mime", VerifC07Mime) }
